@@ -29,6 +29,8 @@ func checkC18(r *Report, p *Program) {
 	relatedInformerMemo(r, p, "R18.8")
 	subscriptionHandles(r, p, "R18.9")
 	timerStopTable(r, p, "R18.10")
+	tombstonesAreValues(r, p, "R18.11")
+	fanOutReachesHandlers(r, p, "R18.12")
 }
 
 // lockDiscipline (A6): all accesses to the selected shared maps hold one common
